@@ -12,6 +12,9 @@ Line-protocol driver for C12 (Model/Transmission.lean).  One operation per line,
   netbeta plain <edge beta> <β> | netbeta sexual <edge beta> <β> <acts·dt>
   validate scalar <β> <keys> | validate dict <k=s:β;k=l:b0,b1;…|-> <keys> | validate invalid <keys>
   pair <k=b0,b1;…> <key>
+  outcomes <ages by uid>  -> congenital / prognosis split of `infect` and the step's log (sources, targets)
+  unique <targets> <sources>   -> keepFirst + sort (`uids.unique(return_index=True)`), N = kept indices
+  netbetaf <β> <dt> <edge betas> <acts>  -> IEEE bits of SexualNetwork.net_beta per edge (doubles, any acts·dt)
 Numbers: `p/q`, integers, or `m@e` (= m / 2^e, the exact value of a binary float).
 -/
 import StarsimModel.Model.Transmission
@@ -115,6 +118,28 @@ def stepLine (st : St) (line : String) : St × String :=
       | none => (st, "bad-op")
     | _, _, _, _, _, _, _, _, _, _, _, _ => (st, "bad-op")
   | ["infect"] => (st, showEvents (infect st.dstate st.nets.toList))
+  | ["outcomes", ages] =>
+    match parseNums? ages with
+    | some ages =>
+      let age : Nat → Rat := fun u => ages.getD u 1
+      let evs := infect st.dstate st.nets.toList
+      let lg := stepLog 0 age st.dstate st.nets.toList
+      (st, s!"C={showNats ((congenitalCases age evs).map (·.target))} P={showNats ((prognosisCases age evs).map (·.target))} LS={showNats (lg.map (·.source))} LT={showNats (lg.map (·.target))}")
+    | none => (st, "bad-op")
+  | ["unique", ts, ss] =>
+    match parseNats? ts, parseNats? ss with
+    | some ts, some ss =>
+      if ts.size ≠ ss.size then (st, "bad-op") else
+      let evs : List Event := (List.range ts.size).map (fun i => ⟨ts.getD i 0, ss.getD i 0, i⟩)
+      (st, showEvents (sortByTarget (keepFirst evs)))
+    | _, _ => (st, "bad-op")
+  | ["netbetaf", β, dt, ebs, acts] =>
+    match parseNum? β, parseNum? dt, parseNums? ebs, parseNums? acts with
+    | some β, some dt, some ebs, some acts =>
+      if ebs.size ≠ acts.size then (st, "bad-op") else
+      let f : Rat → Float := fun r => Float.ofInt r.num / Float.ofNat r.den
+      (st, showList (fun i => toString (netBetaSexualF (f (ebs.getD i 0)) (f β) (f (acts.getD i 0)) (f dt)).toBits) (List.range ebs.size))
+    | _, _, _, _ => (st, "bad-op")
   | ["events"] => (st, showEvents (allEvents st.dstate st.nets.toList))
   | ["calls"] =>
     let cs := callsOf st.dstate st.nets.toList
